@@ -74,6 +74,8 @@ pub const DEF_POOL: &[&str] = &[
     "PRAGMA EXTERN foo \"REAL (x : REAL)\"",
     "PRAGMA EXTERN bar \"(y : mut INTEGER)\"",
     "PRAGMA EXTERN \"OCTET\"",
+    "PRAGMA EXTERN \"REAL (x : REAL)\"",
+    "PRAGMA EXTERN 5 \"INTEGER\"",
 ];
 
 /// Body instructions without control flow: gates, pragmas, pulses, classical instructions.
